@@ -472,7 +472,7 @@ class Forced:
         self._run_until(done, blocked)
         return th
 
-    UNSEEN = 3.0
+    UNSEEN = 1.5
 
     def _run_until(self, *events):
         """let the other thread run until one of the events is set. A thread that does neither finish nor report "blocked"
@@ -629,7 +629,7 @@ def run_case(ctx, state, rname, wnames, points, opened=None):
     r_events = reader_events(tracer, f.reader_tid)
     res = {'reader': rname, 'writers': wnames, 'points': points, 'v0': v0, 'toggle_phase': phase0, 'errors': f.errors, 'n_events': len(r_events),
            'r_events': r_events, 'events': evs_all, 'reader_tid': f.reader_tid, 'writer_tids': [th.name for _, th, _, _ in f.started], 'writer_ks': [k for k, *_ in f.started],
-           'opened': opened, 'paused_actions': dict(f.paused_actions)}
+           'opened': opened, 'paused_actions': dict(f.paused_actions), 'unseen_waits': f.unseen_waits}
     if f.errors or f.answer is None:
         res['verdict'] = ('harness', '; '.join(f.errors) or 'no answer')
         return res
@@ -739,6 +739,7 @@ def _run(ctx):
         if any(opened):
             case['opened'] = opened
             ctx.count('open-transaction')
+        ctx.count('scheduler:thread-waiting-for-something-untraced', res.get('unseen_waits', 0))
         if 'toggleTx' in wn:
             case['toggle_phase'] = res['toggle_phase']
         ctx.case(case, nontrivial=in_flight, sample={**case, 'answer_version': res.get('answer_version'), 'v0': res['v0'],
